@@ -44,6 +44,7 @@ class AbstractQName(AnyAtomicType):
         if namespaces is None:
             namespaces = parser.namespaces if parser is not None else {}
 
+        value = value.strip()
         if ':' not in value:
             return cls(namespaces.get(''), value)
         else:
